@@ -102,9 +102,13 @@ func main() {
 	processPath(flag.Args(), fileCh)
 
 	// wait the all files done
+	verifGate("main", 0, "wait")
 	wg.Wait()
+	verifEv("main", 0, "wait", "")
+	verifGate("main", 0, "close")
 	close(fileCh)
 	close(resultCh)
+	verifEv("main", 0, "close", "")
 
 	elapsed := time.Since(start)
 	if *printExecTime {
@@ -119,10 +123,14 @@ func processPath(pathList []string, fileCh chan<- *file) {
 
 		err = filepath.Walk(real, func(path string, f os.FileInfo, err error) error {
 			if !f.IsDir() && filepath.Ext(path) == ".php" {
+				verifGate("walker", 0, "add")
 				wg.Add(1)
 				content, err := ioutil.ReadFile(path)
 				checkErr(err)
+				verifEv("walker", 0, "add", path, content)
+				verifGate("walker", 0, "send")
 				fileCh <- &file{path, content}
+				verifEv("walker", 0, "send", path)
 			}
 			return nil
 		})
@@ -131,11 +139,15 @@ func processPath(pathList []string, fileCh chan<- *file) {
 }
 
 func parserWorker(fileCh <-chan *file, r chan<- result) {
+	wid := verifWorkerID()
 	for {
+		verifGate("w", wid, "take")
 		f, ok := <-fileCh
 		if !ok {
 			return
 		}
+		verifEv("w", wid, "take", f.path, f.content)
+		verifGate("w", wid, "parse")
 
 		var parserErrors []*errors.Error
 		rootNode, err := parser.Parse(f.content, conf.Config{
@@ -149,7 +161,10 @@ func parserWorker(fileCh <-chan *file, r chan<- result) {
 			os.Exit(1)
 		}
 
+		verifEv("w", wid, "parse", f.path, f.content, rootNode, parserErrors)
+		verifGate("w", wid, "rsend")
 		r <- result{path: f.path, rootNode: rootNode, errors: parserErrors}
+		verifEv("w", wid, "rsend", f.path)
 	}
 }
 
@@ -157,10 +172,13 @@ func printerWorker(r <-chan result) {
 	var counter int
 
 	for {
+		verifGate("printer", 0, "ptake")
 		res, ok := <-r
 		if !ok {
 			return
 		}
+		verifEv("printer", 0, "ptake", res.path, res.rootNode, res.errors)
+		verifGate("printer", 0, "print")
 
 		counter++
 
@@ -195,6 +213,7 @@ func printerWorker(r <-chan result) {
 			dumper.NewDumper(os.Stdout).WithPositions().WithTokens().Dump(res.rootNode)
 		}
 
+		verifEv("printer", 0, "print", res.path, res.rootNode, res.errors)
 		wg.Done()
 	}
 }
